@@ -8,7 +8,19 @@ linear inequalities over the integers, prunes infeasible partitions, and dischar
 (no unsigned wrap of any operation that contributes to the selected value, range and exactness of
 the result) by entailment: C |= e <= 0 iff C and e >= 1 is infeasible, decided by Fourier-Motzkin
 elimination over the rationals (sound for a proof; incomplete in general, complete enough here).
-Nothing is executed and no value is enumerated."""
+Nothing is executed and no value is enumerated.
+
+Beyond the linear fragment (second part): a product of two non-constant forms and a quotient by a
+non-constant form become fresh variables ("terms") that are constrained only by axioms which hold
+for all non-negative integers, each instantiated when its premise is entailed by the path:
+  P = x*y:   P >= 0;   y = 0 -> P = 0;   y >= 1 -> P >= x   (and with x, y swapped)
+  P = f*y, P' = f*y' (a shared factor):   y' - y = c -> P' - P = c*f;   y' - y >= 1 -> P + f <= P';
+             y' - y >= 0 -> P <= P'   (and mirrored)
+  q = x div y (obligation y >= 1), P = q*y:   P <= x <= P + y - 1;   y <= x -> q >= 1;   x < y -> q = 0
+  r = x rem y = x - P
+A call is replaced by its summary (precondition = obligations on the actual arguments, postcondition
+= constraints on a fresh result); for a recursive call that is the induction hypothesis, and the
+summary also demands a strictly decreasing measure."""
 from fractions import Fraction
 
 from . import dag
@@ -119,6 +131,11 @@ class Walker:
         self.failures = []  # (what, node, path constraints)
         self.obligations = 0
         self.maxv = (1 << bits) - 1
+        self.prods = {}  # sorted (key x, key y) -> (name, x, y)
+        self.divs = {}  # (key x, key y) -> (q name)
+        self.summaries = {}  # callee -> f(walker, C, [Lin], node) -> (C', Lin)
+        self.ncalls = 0
+        self.callres = {}
 
     def halves(self, f, C):
         k = f.key()
@@ -130,6 +147,81 @@ class Walker:
         d = f - var(h).scale(2) - var(l)
         C = C + [d, -d, -var(l), var(l) - K(1), -var(h)]
         return C, var(h), var(l)
+
+    def nonneg(self, C, x):
+        return x.is_const() and x.c >= 0 or entails_le0(C, -x)
+
+    def prod_axioms(self, C, name):
+        """facts about the product term `name` that the path entails (all sound for non-negative integers)"""
+        _, x, y = next(v for v in self.prods.values() if v[0] == name)
+        P = var(name)
+        if not (self.nonneg(C, x) and self.nonneg(C, y)):
+            return C
+        C = C + [-P]
+        for u, v in ((x, y), (y, x)):
+            if entails_le0(C, v):  # v == 0
+                C = C + [P]
+            elif entails_le0(C, K(1) - v):  # v >= 1
+                C = C + [u - P]
+        for name2, x2, y2 in list(self.prods.values()):
+            if name2 == name or not (self.nonneg(C, x2) and self.nonneg(C, y2)):
+                continue
+            P2 = var(name2)
+            for f, o1 in ((x, y), (y, x)):
+                for f2, o2 in ((x2, y2), (y2, x2)):
+                    if f != f2:
+                        continue
+                    d = o2 - o1
+                    if d.is_const():
+                        e = P2 - P - f.scale(d.c)
+                        C = C + [e, -e]
+                    elif entails_le0(C, K(1) - d):
+                        C = C + [P + f - P2]
+                    elif entails_le0(C, -d):
+                        C = C + [P - P2]
+                    elif entails_le0(C, d + K(1)):
+                        C = C + [P2 + f - P]
+                    elif entails_le0(C, d):
+                        C = C + [P2 - P]
+        return C
+
+    def product(self, x, y, C):
+        k = tuple(sorted([x.key(), y.key()]))
+        if k not in self.prods:
+            self.naux += 1
+            self.prods[k] = ("m%d" % self.naux, x, y)
+        name = self.prods[k][0]
+        return self.prod_axioms(C, name), var(name)
+
+    def divide(self, x, y, C, node):
+        """(C', quotient, remainder) of the unsigned division x / y"""
+        self.need(C, K(1) - y, "division by zero", node)
+        k = (x.key(), y.key())
+        if k not in self.divs:
+            self.naux += 1
+            self.divs[k] = "q%d" % self.naux
+        q = var(self.divs[k])
+        C = C + [-q]
+        if y.is_const():
+            P = q.scale(y.c)
+        else:
+            C, P = self.product(q, y, C)
+        C = C + [P - x, x - P - y + K(1)]
+        if entails_le0(C, y - x):
+            C = C + [K(1) - q]
+        elif entails_le0(C, x - y + K(1)):
+            C = C + [q]
+        if not y.is_const():
+            C = self.prod_axioms(C, P.co and list(P.co)[0])
+        return C, q, x - P
+
+    def result_of(self, callee, args):
+        """the result variable of a call: one per (callee, actual arguments) - the callees are pure"""
+        k = (callee, tuple(a.key() for a in args))
+        if k not in self.callres:
+            self.naux += 1
+            self.callres[k] = "r%d" % self.naux
+        return var(self.callres[k])
 
     def need(self, C, e, what, node):
         """obligation e <= 0 under C"""
@@ -161,18 +253,23 @@ class Walker:
                     elif b.is_const():
                         r = a.scale(b.c)
                     else:
-                        raise Failure("non-linear multiplication")
+                        C2, r = self.product(a, b, C2)
                     self.need(C2, r - K(self.maxv), "unsigned multiplication wraps", n)
                     yield C2, r
         elif op in ("udiv", "lshr", "urem", "and"):
             by = n.args[1]
             two = by.is_const() and ((op in ("udiv", "urem") and by.cval() == 2) or (op in ("lshr", "and") and by.cval() == 1))
             if not two:
-                # the operands are still ordinary values: their own obligations are recorded first
-                for a in n.args:
-                    for _ in self.value(a, C):
-                        pass
-                raise Failure("division / remainder other than by two")
+                if op not in ("udiv", "urem"):
+                    for a in n.args:
+                        for _ in self.value(a, C):
+                            pass
+                    raise Failure("shift / mask other than by one bit")
+                for C1, a in self.value(n.args[0], C):
+                    for C2, b in self.value(n.args[1], C1):
+                        C3, q, r = self.divide(a, b, C2, n)
+                        yield C3, (q if op == "udiv" else r)
+                return
             for C1, a in self.value(n.args[0], C):
                 C2, h, l = self.halves(a, C1)
                 yield C2, (h if op in ("udiv", "lshr") else l)
@@ -181,8 +278,18 @@ class Walker:
                 yield from self.value(n.args[1] if t else n.args[2], C1)
         elif op in ("zext",):
             yield from self.value(n.args[0], C)
+        elif op == "call" and n.attr in self.summaries:
+            def args_from(i, C0, acc):
+                if i == len(n.args):
+                    yield C0, acc
+                    return
+                for C1, a in self.value(n.args[i], C0):
+                    yield from args_from(i + 1, C1, acc + [a])
+            for C1, args in args_from(0, C, []):
+                self.ncalls += 1
+                yield self.summaries[n.attr](self, C1, args, n)
         else:
-            raise Failure("unsupported node %s" % op)
+            raise Failure("unsupported node %s%s" % (op, " " + str(n.attr) if op == "call" else ""))
 
     def truth(self, n, C):
         """yields (C', bool) for every feasible outcome of an i1 node"""
@@ -228,6 +335,69 @@ class Walker:
                             yield C2 + no, False
         else:
             raise Failure("unsupported condition %s" % op)
+
+
+class Poly:
+    """integer polynomial over atoms (parameters, quotients, call results): {sorted tuple of atoms: coef}"""
+
+    def __init__(self, t=None):
+        self.t = {k: Fraction(v) for k, v in (t or {}).items() if v != 0}
+
+    @staticmethod
+    def atom(a):
+        return Poly({(a,): 1})
+
+    @staticmethod
+    def const(c):
+        return Poly({(): c})
+
+    def __add__(self, o):
+        t = dict(self.t)
+        for k, v in o.t.items():
+            t[k] = t.get(k, 0) + v
+        return Poly(t)
+
+    def scale(self, c):
+        return Poly({k: v * c for k, v in self.t.items()})
+
+    def __sub__(self, o):
+        return self + o.scale(-1)
+
+    def __mul__(self, o):
+        t = {}
+        for k1, v1 in self.t.items():
+            for k2, v2 in o.t.items():
+                k = tuple(sorted(k1 + k2))
+                t[k] = t.get(k, 0) + v1 * v2
+        return Poly(t)
+
+    def without_multiples_of(self, a):
+        """the part that is NOT visibly a multiple of atom a (monomials without a)"""
+        return Poly({k: v for k, v in self.t.items() if a not in k})
+
+    def integral(self):
+        return all(v.denominator == 1 for v in self.t.values())
+
+    def __repr__(self):
+        return " + ".join("%s*%s" % (v, "*".join(k) or "1") for k, v in sorted(self.t.items())) or "0"
+
+
+def expand(walker, lin, subst=None):
+    """The linear form as a polynomial over atoms: product terms are multiplied out; a variable in
+    `subst` (e.g. the result of a recursive call under the induction hypothesis) is replaced by the
+    given polynomial."""
+    prods = {v[0]: (v[1], v[2]) for v in walker.prods.values()}
+    subst = subst or {}
+    out = Poly.const(lin.c)
+    for v, c in lin.co.items():
+        if v in subst:
+            p = subst[v]
+        elif v in prods:
+            p = expand(walker, prods[v][0], subst) * expand(walker, prods[v][1], subst)
+        else:
+            p = Poly.atom(v)
+        out = out + p.scale(c)
+    return out
 
 
 def analyse(root, pre, goals):
